@@ -354,6 +354,9 @@ func ParamsOf(codec string, idx int) ParamSet {
 	return ParamSet{}
 }
 
+// AV1BogusHeader as in-band index of an AV1 random access op: a sequence header that does not parse.
+const AV1BogusHeader = 7777
+
 // NumH264ReorderSets is the number of parameter sets of the H264 reorder family.
 const NumH264ReorderSets = 4
 
@@ -482,7 +485,11 @@ func BuildVideo(codec string, kind string, inBand int, tmpl int, marker []byte) 
 			// a temporal delimiter OBU first (what encoders emit at the start of every temporal unit)
 			tu = append(tu, []byte{2 << 3})
 		}
-		if kind == KindRA {
+		if kind == KindRA && inBand == AV1BogusHeader {
+			// an OBU with the type of a sequence header that WriteAV1 accepts and the init writer
+			// cannot parse (C07: a rotation that fails while generating the init file)
+			tu = append(tu, []byte{0x0a, 0x01, 0x00})
+		} else if kind == KindRA {
 			idx := inBand
 			if idx < 0 {
 				idx = 0
